@@ -84,6 +84,10 @@ def main():
                 meta = json.load(open(os.path.join(sd, n, "meta.json"))) if os.path.exists(os.path.join(sd, n, "meta.json")) else {}
                 muts.append({"name": n, "patch": pf, "expect": [(meta.get("property", "?"), "*")]})
         all_props = True
+    elif "--benign" in args:
+        import benign
+        muts = benign.M
+        all_props = True
     else:
         import mutations
         muts = mutations.M
